@@ -535,3 +535,98 @@ def check_strict_mode(ctx, F, rule="E-DDDMP.strictmode"):
                                     if guards else "the error created at call #%d is reachable without `strict` being set: the non-strict export "
                                     "reports names it is documented to sanitise" % errs.index(e)))
     return n
+
+
+def check_placeholder_underscores(ctx, F, rule="E-DDDMP.placeholder"):
+    """Names the exporter invents (`_x{i}` for unnamed variables, `_x{i}_{name}` for sanitised duplicates) get
+    `leading_underscores` underscores in front, one more than any existing variable name starts with -- that is what
+    keeps an invented name from colliding with a real one (`.varnames a _x1 _x1` is accepted by the reader and then fails
+    in `add_named_vars`).  The loop that computes `leading_underscores` (in the closure that collects the variable
+    names) is interpreted over the names "", "a", "_", "_x1", "__x2", "a_b", "___": afterwards the counter exceeds the
+    number of leading underscores of every name seen, and it starts at no less than 1."""
+    from lib import hirutil as H
+    from lib.interp import Interp, Unrecognised, enumerate_runs
+    import tables
+    h = F.hir.get(EXP + "export_common") or F.hir.get(EXP.rstrip(":") + "::export_common")
+    fid = next((f for f in F.hir if f.startswith(EXP) and f.endswith("export_common")), None)
+    if not ctx.anchor(rule, "export_common", fid is not None):
+        return 0
+    body = F.hir[fid]["body"]
+    init = [x for x in H.walk(body) if x.get("k") == "slet" and (x.get("p") or {}).get("n") == "leading_underscores"]
+    loops = [x for x in H.walk(body) if x.get("k") == "match" and str(x.get("src", "")).startswith("ForLoopDesugar")
+             and any(y.get("k") == "mcall" and y.get("name") == "bytes" for y in H.walk(x["e"]))
+             and any(y.get("k") in ("assign", "assignop") and H.root_local(y["l"]) == "leading_underscores" for y in H.walk(x))]
+    if not ctx.anchor(rule, "export_common: `let mut leading_underscores = <int>` and the loop over a name's bytes that raises it",
+                      len(init) == 1 and (init[0].get("e") or {}).get("k") == "lit" and len(loops) == 1):
+        return 0
+    start = int(init[0]["e"]["v"])
+    names_local = sorted({y["n"] for y in H.walk(loops[0]["e"]) if y.get("k") == "path" and y.get("res") == "local"})
+
+    class It_:
+        def __init__(self, items):
+            self.items = list(items)
+
+    class D(tables.DDDomain):
+        finite_loops = True
+
+        def __init__(self):
+            super().__init__(F, tables.BDD)
+
+        def iterate(self, it, src):
+            return src.items if isinstance(src, It_) else list(src) if isinstance(src, (list, tuple)) else None
+
+        def call(self, it, name, f, args_e, env, e):
+            n = f.get("n", "")
+            if n.endswith("cmp::max"):
+                a, b = [it.ev(x, env) for x in args_e]
+                return max(a, b)
+            if n.endswith("cmp::min"):
+                a, b = [it.ev(x, env) for x in args_e]
+                return min(a, b)
+            if n.endswith("IntoIterator::into_iter"):
+                return [it.ev(a, env) for a in args_e][0]
+            return super().call(it, name, f, args_e, env, e)
+
+        def method(self, it, m, e, env):
+            name = m.rsplit("::", 1)[-1]
+            recv = it.recv(e, env)
+            if isinstance(recv, str):
+                if name == "bytes":
+                    return It_(list(recv.encode()))
+                if name in ("as_ref", "as_str", "deref"):
+                    return recv
+            if isinstance(recv, It_) and name == "enumerate":
+                return It_(list(enumerate(recv.items)))
+            if isinstance(recv, int) and name == "max":
+                (o,) = it.args(e, env)
+                return max(recv, o)
+            return super().method(it, m, e, env)
+    fails = []
+    mut = {"leading_underscores": start}
+    n = 0
+    seen = 0
+    if start < 1:
+        fails.append("leading_underscores starts at %d: `x{i}` without an underscore may be a user's name" % start)
+    for name in ("", "a", "_", "_x1", "__x2", "a_b", "___"):
+        n += 1
+
+        def go(it, name=name):
+            env = {"$consts": {}, "$fn": fid, "$mut": mut, "leading_underscores": mut["leading_underscores"]}
+            for nl in names_local:
+                if nl != "leading_underscores":
+                    env[nl] = name
+            return it.ev(loops[0], env)
+        outs = list(enumerate_runs(lambda o: Interp(F, D(), o), go))
+        if len(outs) != 1 or outs[0][1][0] != "ok":
+            fails.append("the loop is not interpretable for the name %r: %r" % (name, outs[0][1] if outs else None))
+            break
+        lead = len(name) - len(name.lstrip("_"))
+        seen = max(seen, lead)
+        cur = mut.get("leading_underscores")
+        if not isinstance(cur, int) or cur <= seen:
+            fails.append("after the name %r (%d leading underscore(s)) leading_underscores is %r: an invented name `%sx1` can equal a "
+                         "real variable name" % (name, lead, cur, "_" * (cur if isinstance(cur, int) else 0)))
+            break
+    ctx.ob(rule, rule, not fails, "export_common (%s): %s" % (F.where(fid), " || ".join(fails) if fails else
+           "invented names start with more underscores than any existing name (counter %d after the model names)" % mut["leading_underscores"]))
+    return n
